@@ -28,10 +28,18 @@ class Spec(core.PropSpec):
         st = core.Streams(seed)
         w = T.gen_world(st("world"), max_n=40 if tier == "quick" else 96, max_cfg=4 if tier == "quick" else 6)
         ro = st("ops")
-        return dict(world=w, via=ro.choice(["sampler", "batch_sampler"]), reiterate=ro.random() < 0.3,
+        plan = dict(world=w, via=ro.choice(["sampler", "batch_sampler"]), reiterate=ro.random() < 0.3,
                     foreign_epoch=ro.choice([None, None, None, 97]), peek=ro.choice([None, None, None, 1, 3]))
+        rc = st("company")
+        plan["company"] = T.gen_company(rc, w) if w["configs"] and rc.random() < 0.2 else None
+        plan["overlap"] = [[rc.randint(0, 12), rc.randint(1, 4)] for _ in range(rc.randint(1, 2))] if rc.random() < 0.2 else None
+        return plan
 
     def shrink_candidates(self, plan):
+        if plan.get("company"):
+            yield dict(plan, company=None)
+        if plan.get("overlap"):
+            yield dict(plan, overlap=None)
         yield from T.world_candidates(plan)
         yield from super().shrink_candidates(plan)
 
@@ -54,7 +62,12 @@ class Spec(core.PropSpec):
                 out.count("fault:peek_then_iterate")
                 hist, terminated = T.run_sampler(w, via=plan["via"], cap=cap, sampler=s_obj, log=s_log)
             else:
-                hist, terminated = T.run_sampler(w, via=plan["via"], cap=cap, foreign_epoch=plan.get("foreign_epoch"))
+                hist, terminated = T.run_sampler(w, via=plan["via"], cap=cap, foreign_epoch=plan.get("foreign_epoch"),
+                                                 company=plan.get("company"), overlap=plan.get("overlap"))
+                if plan.get("company"):
+                    out.count("fault:config_objects_shared_with_second_sampler")
+                if plan.get("overlap"):
+                    out.count("fault:overlapping_iteration_of_same_object")
             hist = list(hist)
             if plan.get("reiterate") and terminated:
                 # iterating the same sampler object again must give the same stream (every pass starts at the start epoch)
